@@ -1,9 +1,9 @@
 """C10 — the multiscale metric is finite SPD (planar embedding in 2-D) and meets the requested complexity."""
-from . import streams_metric, cli
+from . import streams_metric, streams_gradation, cli
 from .common import Stream
 
 ID = 'C10'
-PROPS_MODULE = ['Refine.Props.C10']
+PROPS_MODULE = ['Refine.Props.C10', 'Refine.Props.C10Gradation']
 
 
 def _gen_multiscale_mpi(rng, tier, np):
@@ -15,7 +15,8 @@ def _gen_multiscale_mpi(rng, tier, np):
 MULTISCALE_MPI = Stream('cli_multiscale_mpi', cli.cli_harness, None, _gen_multiscale_mpi, oracle=cli.oracle_multiscale,
                         kind='oracle', np=[2, 3], nontrivial=lambda op, out: out.startswith('rc=0'), timeout=900)
 
-STREAMS = [streams_metric.COMPLEXITY, streams_metric.EIG, streams_metric.GAC, cli.MULTISCALE, MULTISCALE_MPI]
+STREAMS = [streams_metric.COMPLEXITY, streams_metric.EIG, streams_metric.GAC, streams_gradation.SWEEP, streams_gradation.GAC,
+           streams_gradation.LP, cli.MULTISCALE, MULTISCALE_MPI]
 
 EXPLANATION = (
     'Proved in Lean over the reals, about the executable model Refine/Model/Metric.lean (a statement-by-statement '
@@ -49,7 +50,28 @@ EXPLANATION = (
     'evaluated on the state it leaves (metric_gradation_at_complexity, validate). The Python oracles state the property '
     'on the implementation\'s own output with an independent integrator (exact rational volumes and determinants): '
     '|C(out)-target| <= 1e-8 target, leading minors > 0, m13=m23=0 and m33=1 exactly. End to end: `ref multiscale` and '
-    '`refmpi multiscale` on 2 and 3 ranks (cli_multiscale, cli_multiscale_mpi).')
+    '`refmpi multiscale` on 2 and 3 ranks (cli_multiscale, cli_multiscale_mpi). '
+    'Gradation (Refine/Model/Gradation.lean, Props/C10Gradation.lean): the ref_edge order, '
+    'ref_metric_metric_space_gradation, ref_metric_mixed_space_gradation (limit metric of each end seen from the other, '
+    'two ref_matrix_intersect calls per end, the continue / skipped-end / RSS exits) and the 20-relaxation loop of '
+    'ref_metric_gradation_at_complexity are transcribed and bit-compared with the real functions after every sweep '
+    '(streams gradation_sweeps: edges, 1..3 sweeps, r in {1.1, 1.5, 3, -1, 1, ...}; gradation_at_complexity: the whole '
+    'function and the stages of ref_metric_lp after the reconstruction; gradation_lp_chain: the real ref_metric_lp on '
+    'a scalar field against the model applied to the Hessian ref_recon_hessian returns). Proved: after any number of '
+    'sweeps over ANY edge list every vertex tensor dominates its input in the Loewner order (gradationSweep_ge_input, '
+    'mixedSweep_ge_input) and SPD fields stay SPD (gradationSweep_spd, mixedSweep_spd, metricSpaceGradation_spd_ge); '
+    'for r >= 1 the limit metric is a multiple in (0,1] of the neighbour\'s metric (limitMS_spd, limitMS_le); the '
+    'embedding block after the sweep returns embedded SPD tensors and keeps dominance over an embedded input '
+    '(gradationSweep_twod_embed); the relaxation loop keeps SPD and, in 2-D, the embedding for any number of '
+    'relaxations (gacLoop_spd, gacLoop_embedded); the function ends with the setComplexity block, so its output has '
+    'complexity exactly the target and is SPD (gradation_at_complexity_final, gradationAtComplexity_final, '
+    'gradation_at_complexity_spd, gradation_at_complexity_div_zero). The oracle of the new streams states directly: '
+    'every tensor after every sweep finite SPD, dominating its input (exact rational minors of M\' - (1-1e-9)M), '
+    'embedding kept, |C(out)-target| <= 1e-10 target (for output tensors of conditioning up to 1e4). '
+    'Also proved: the Lp exponent is -1/(2p+dim) and sends the coded determinant to det^(2p/(2p+dim)) in 3-D and, with '
+    'the embedding, in 2-D (localScale_exponent_dim, localScale_det3, localScale_det2); floor + Lp normalisation give '
+    'SPD for any Hessian (lp_front_spd); the stages of ref_metric_lp after the reconstruction return complexity exactly '
+    'the target and, in 2-D, embedded tensors (lpChain_split, lpChain_complexity).')
 
 ASSUMPTIONS = [
     'theorems hold in exact real arithmetic about the model; IEEE rounding is modelled (Float instance, bit-compared '
@@ -58,15 +80,23 @@ ASSUMPTIONS = [
     'embedding after every stage), and an exponent that matches the quadrature (twod grids integrate areas). '
     'A triangle-only grid that is NOT flagged twod (a surface grid) is rescaled with exponent 2/3 although its '
     'complexity integrates areas: the identity does not hold there (not a C10 input; tie only)',
-    'the gradation sweeps (ref_metric_metric_space_gradation / mixed_space: edge order dependent, 20 relaxations) are not '
-    'modelled: their SPD-ness rests on Props/C16.intersect_spd per call, and they are tied end to end only '
-    '(validate stream + cli_multiscale); that 20 relaxations converge is not claimed',
+    'the gradation theorems take the eigen-decomposition hypotheses of Props/C16 (InnerExact: both inner ref_matrix_diag_m '
+    'calls succeeded and are exact) for exactly the write-back calls intersect(metric[node], limited, metric[node]) that a '
+    'sweep makes, as a predicate walking the same fold as the executable sweep (FoldExact / SweepsExact / MixedFoldExact / '
+    'GacLoopOk); a refused call leaves the field as it is; nothing is assumed about ref_matrix_diag_m in general. '
+    'The relaxation-loop theorems additionally take a positive current complexity at every rescale. That 20 '
+    'relaxations converge is not claimed; that the unprojected sweep keeps m13 = m23 = 0 by itself is not proved '
+    '(the C re-imposes the embedding after the sweep, which is what is proved)',
+    'ref_metric_gradation_at_complexity_mixed (ref_metric_imply_non_tet inside the loop) is not modelled',
     'Hessian reconstruction (ref_recon_hessian: L2 projection / k-exact) is outside this property (C19); the abs-value '
     'and floor theorems need only orthonormal eigenvectors from ref_matrix_diag_m (proved), not an exact decomposition; '
     'a diag_m failure status is returned as is',
-    'SPD after limit_aspect_ratio is proved for the 3-D node kernel given a positive largest eigenvalue; the 2-D kernel '
-    '(descending_eig_twod, embedding) is tied and oracled only',
+    'SPD after limit_aspect_ratio is proved for the 3-D node kernel given a positive largest eigenvalue, and for the 2-D '
+    'kernel (descending_eig_twod, twod_m) given a positive larger in-plane eigenvalue and a positive out-of-plane '
+    'eigenvalue of the returned frame (limitAspectRatio2_spd_embedded); the embedding of the 2-D limiter output is '
+    'unconditional (limitAspectRatio2_field_embedded)',
     'parallel: the model is one rank\'s sum with ref_mpi_allsum as the identity; complexity_rank_sum covers the sum over '
-    'ranks; ghost exchange (ref_node_ghost_dbl) and the np > 1 run are covered end to end by cli_multiscale_mpi only',
+    'ranks; ghost exchange (ref_node_ghost_dbl after every sweep) and the np > 1 run are covered end to end by '
+    'cli_multiscale_mpi only: the gradation model is the one-rank sweep (no 2-rank world was modelled)',
     'Python oracle arithmetic (fractions, integer square root, 50-digit decimal Jacobi) is trusted',
 ]
